@@ -26,6 +26,23 @@ def check(assertions, timeout_ms=10000, want_model=True, use_cvc5=True, logic=No
         return "unsat", None, "z3", dt
     if r == z3.sat:
         return "sat", (s.model() if want_model else None), "z3", dt
+    # refutation under the order laws of the version key: z3 answers `unknown` for satisfiable queries that
+    # contain the three quantified laws. They are total-preorder laws over an uninterpreted relation, for which
+    # instantiation over the ground argument terms of the query is complete (a finite total preorder extends
+    # to all strings by ranking every other string below the ground ones): retry with the instances.
+    g = _ground_order_instances(assertions)
+    if g is not None:
+        s2 = z3.Solver()
+        s2.set("timeout", int(timeout_ms))
+        for a in g:
+            s2.add(a)
+        t1 = time.time()
+        r2 = s2.check()
+        dt += time.time() - t1
+        if r2 == z3.sat:
+            return "sat", (s2.model() if want_model else None), "z3-ground-order-laws", dt
+        if r2 == z3.unsat:
+            return "unsat", None, "z3-ground-order-laws", dt
     if not use_cvc5:
         return "unknown", None, "z3", dt
     v, dt2 = cvc5_check(s, timeout_ms)
@@ -35,6 +52,69 @@ def check(assertions, timeout_ms=10000, want_model=True, use_cvc5=True, logic=No
         # no model decoding from cvc5; caller may retry z3 with a longer budget
         return "sat", None, "cvc5", dt + dt2
     return "unknown", None, "z3+cvc5", dt + dt2
+
+
+def _ground_order_instances(assertions):
+    """If every quantified assertion is one of the order laws (bound variables named *!ol), return the
+    assertions with those laws replaced by their instances over the ground arguments of the relation."""
+    laws, rest = [], []
+    for a in assertions:
+        if z3.is_quantifier(a):
+            if not all(a.var_name(i).endswith("!ol") for i in range(a.num_vars())):
+                return None
+            laws.append(a)
+        else:
+            rest.append(a)
+    if not laws:
+        return None
+    # unit propagation: quantified callee facts guarded by a literal that this path refutes disappear
+    try:
+        goal = z3.Goal()
+        for a in rest:
+            goal.add(a)
+        sub = z3.Then("simplify", "propagate-values", "simplify")(goal)
+        if len(sub) == 1:
+            rest = list(sub[0])
+    except z3.Z3Exception:
+        pass
+    rel = None
+    terms = {}
+    seen = set()
+    stack = list(rest)
+    # the relation symbol: the uninterpreted predicate of the first law
+    body = laws[0].body()
+    st2 = [body]
+    while st2:
+        t = st2.pop()
+        if z3.is_app(t) and t.decl().kind() == z3.Z3_OP_UNINTERPRETED and t.num_args() == 2:
+            rel = t.decl()
+            break
+        st2.extend(t.children())
+    if rel is None:
+        return None
+    while stack:
+        t = stack.pop()
+        if t.get_id() in seen:
+            continue
+        seen.add(t.get_id())
+        if z3.is_quantifier(t):
+            return None  # nested quantifier elsewhere: not the fragment this argument covers
+        if z3.is_app(t):
+            if t.decl().eq(rel):
+                for c in t.children():
+                    terms[c.get_id()] = c
+            stack.extend(t.children())
+    ts = list(terms.values())
+    if not ts or len(ts) > 12:
+        return None
+    out = list(rest)
+    for x in ts:
+        out.append(rel(x, x))
+        for y in ts:
+            out.append(z3.Or(rel(x, y), rel(y, x)))
+            for z in ts:
+                out.append(z3.Implies(z3.And(rel(x, y), rel(y, z)), rel(x, z)))
+    return out
 
 
 def cvc5_check(solver, timeout_ms):
